@@ -194,10 +194,15 @@ class BatchSpec(SeqSpec):
         cfg = self._cfg(rng, mode="func", size=5, gated=True)
         ops = [["next", 0, 0], ["quiesce"], ["release-full"], ["release", "item", 1], ["release", "item", 2],
                ["cancel", 0], ["sleep"], ["next", 1, 1], ["quiesce"], ["release-full"], ["quiesce"]]
-        if rng.random() < 0.5:
+        r = rng.random()
+        if r < 0.4:
             ops += [["next", 2, 2], ["quiesce"]]
-        else:
+        elif r < 0.6:
             ops += [["release-full"], ["release", "item", 3], ["quiesce"], ["next", 2, 2], ["quiesce"]]
+        else:
+            # the producer already holds item 3 when full() returns: the select sees c, timerC and waiting ready
+            ops = ops[:-2] + [["release", "item", 3], ["quiesce"], ["release-full"], ["release-full"], ["quiesce"],
+                              ["next", 2, 2], ["quiesce"]]
         if rng.random() < 0.5:
             ops += [["close"], ["quiesce"]]
         return cfg, ops
@@ -307,7 +312,7 @@ class BatchSpec(SeqSpec):
             elif k == "quiesce":
                 if e[1]:
                     evs.append("LQuiesce")
-        return "(%d, %s, [%s], %d%%nat, [%s])" % (MODEL_MAXWAIT, mode, "; ".join("%d%%nat" % c for c in calls), nctx,
+        return "(%d, %s, %s, %d%%nat, [%s])" % (MODEL_MAXWAIT, mode, ("[" + "; ".join("%d%%nat" % c for c in calls) + "]") if calls else "(@nil nat)", nctx,
                                                    "; ".join(evs))
 
     # ------------------------------------------------------------------ direct oracle
